@@ -277,3 +277,65 @@ def db_examples(payload):
             for src in cluster:
                 out[name] += list(src.get("examples") or [])
     return out
+
+
+C17_FIELDS = ["pin_cite", "year", "plaintiff", "defendant", "antecedent_guess", "extra", "publisher", "month", "day", "volume"]
+
+
+def witnesses(text, cites):
+    """For the TLC monitors (witness checking, DESIGN 2.2): for every textual metadata value the
+    offset of an occurrence inside the citation's own extent (full span, else the joint extent of
+    the citations that start at the same place), -1 if there is none.  TLC verifies the slice."""
+    out = []
+    for c in cites:
+        fs, fe = c["fs"], c["fe"]
+        grp = [d for d in cites if d["fs"] == fs]
+        lo, hi = min(d["fs"] for d in grp), max(d["fe"] for d in grp)
+        ws = []
+        fields = list(C17_FIELDS)
+        if c["cls"].startswith("Full"):
+            fields.append("parenthetical")
+        for f in fields:
+            v = c["meta"].get(f, "")
+            if not v:
+                continue
+            off = -1
+            if 0 <= fs <= fe <= len(text):
+                off = text.find(v, fs, fe)
+            if off < 0 and 0 <= lo <= hi <= len(text):
+                off = text.find(v, lo, hi)
+            ws.append({"f": f, "v": _cp(v), "off": off})
+        # pin cite inside the pin-cite span (C02)
+        pin = c["meta"].get("pin_cite", "")
+        poff = -2
+        if pin and c["cls"] in ("FullCaseCitation", "ShortCaseCitation", "SupraCitation", "IdCitation", "ReferenceCitation"):
+            poff = text.find(pin, max(c["ps"], 0), max(c["pe"], 0)) if c["ps"] <= c["pe"] else -1
+        out.append({"w": ws, "pin": _cp(pin), "poff": poff})
+    return out
+
+
+def run_offsets(payload):
+    """items: {text | markup+steps, tok}: citations with offsets, matched text, metadata witnesses"""
+    res = []
+    for it in payload["items"]:
+        o = {"tok": it.get("tok", "aho"), "markup": "markup" in it, "raised": "", "text": [], "cites": []}
+        try:
+            if "markup" in it:
+                from eyecite import clean_text
+                plain = clean_text(it["markup"], it["steps"])
+                cs = extract(None, it.get("tok", "aho"), markup=it["markup"], steps=it["steps"])
+            else:
+                plain = it["text"]
+                cs = extract(plain, it.get("tok", "aho"))
+            o["text"] = _cp(plain)
+            ps = [proj(c, i + 1) for i, c in enumerate(cs)]
+            ws = witnesses(plain, ps)
+            for p, w in zip(ps, ws):
+                for k in ("groups", "gnone", "mnone", "meta", "exact", "var"):
+                    p.pop(k, None)
+                p.update(w)
+            o["cites"] = ps
+        except Exception as ex:  # noqa: BLE001
+            o["raised"] = f"{type(ex).__name__}: {ex}"
+        res.append(o)
+    return res
